@@ -116,6 +116,11 @@ func (w *World) c09Probes() []c09Probe {
 		mk("none->cctp", nil, false, denomUSDC, c),
 		mk("[FEE]->internal", []string{"ACTION_FEE"}, false, denomUSDC, f, fee),
 		mk("[FEE]->cctp", []string{"ACTION_FEE"}, false, denomUSDC, c, fee),
+		// degenerate but valid fee actions (no entries; an entry that rounds to zero): they contain the action, so a pause of it
+		// refuses them like any other
+		mk("[FEE(no entries)]->internal", []string{"ACTION_FEE"}, false, denomUSDC, f, fmt.Sprintf(`{"id":"ACTION_FEE","attributes":{"@type":"%s","fees_info":[]}}`, urlFee)),
+		mk("[FEE(attributes without fees_info)]->internal", []string{"ACTION_FEE"}, false, denomUSDC, f, fmt.Sprintf(`{"id":"ACTION_FEE","attributes":{"@type":"%s"}}`, urlFee)),
+		mk("[FEE(rounds to zero)]->cctp", []string{"ACTION_FEE"}, false, denomUSDC, c, feeActionJSON([]FeeSpec{{To: w.Fee1.String(), Bps: 1}})),
 		// deployed chain: ACTION_SWAP has no controller; such payloads are refused whatever the pause state
 		mk("[SWAP(no ctrl)]->internal", []string{"ACTION_SWAP"}, false, denomUSDC, f, feeAsSwap),
 		mk("[SWAP(no ctrl),FEE]->internal", []string{"ACTION_SWAP", "ACTION_FEE"}, false, denomUSDC, f, feeAsSwap, fee),
